@@ -32,6 +32,8 @@ pub struct Mon {
     pub live_in_interval: Vec<bool>,
     pub ended_at_slot: Option<u64>,
     pub hs_done: bool,
+    /// Timer ticks that had passed when the peer's handshake arrived.
+    pub ticks_before_hs: u64,
     pub pause_used: bool,
     pub paused_slots: u64,
 }
@@ -153,6 +155,7 @@ impl Scenario for Timed {
             }
             if sym == "Handshake" {
                 mon.hs_done = true;
+                mon.ticks_before_hs = now / 120_000;
             }
             if sym == "Pause" {
                 mon.pause_used = true;
@@ -208,9 +211,15 @@ impl Scenario for Timed {
             }
         } else {
             // (c) one keep-alive written per tick on a live connection
-            let written = p.msgs.iter().filter(|m| **m == Msg::KeepAlive).count() as u64;
-            // on an incoming connection that has not handshaken yet the client owes (and may send)
-            // nothing; keep-alives are demanded from the handshake on
+            // keep-alives are owed from the client's own handshake on: on an incoming connection
+            // that is once the peer's handshake has arrived (what is written in front of the own
+            // handshake is C08's business: nothing may be); on an outgoing one from the start
+            let own_hs_at = p.msgs.iter().position(|m| matches!(m, Msg::Handshake { .. }));
+            let written = match own_hs_at {
+                Some(at) => p.msgs[at..].iter().filter(|m| **m == Msg::KeepAlive).count() as u64,
+                None => 0,
+            };
+            let ticks_passed = if self.outgoing { ticks_passed } else { ticks_passed.saturating_sub(mon.ticks_before_hs) };
             // (while the manager is busy a task waiting for its answer cannot emit; the overdue
             // keep-alives must all be there at the first slot after it resumed)
             let exempt = (!self.outgoing && !mon.hs_done) || w.manager_paused;
